@@ -434,9 +434,10 @@ func (h *Hub) topicUnreg(sess *Session, topic string, msg *ClientComMessage, rea
 				}
 
 				h.topicDel(topic)
-				t.markDeleted()
-				t.exit <- &shutDown{reason: StopDeleted}
-				statsInc("LiveTopics", -1)
+				if t.markDeletedOnce() {
+					t.exit <- &shutDown{reason: StopDeleted}
+					statsInc("LiveTopics", -1)
+				}
 			} else {
 				// Case 1.1.2: requester is NOT the owner or not empty P2P.
 				msg.MetaWhat = constMsgDelTopic
@@ -550,12 +551,12 @@ func (h *Hub) topicUnreg(sess *Session, topic string, msg *ClientComMessage, rea
 		// Case 2: just unregister.
 		// If t is nil, it's not registered, no action is needed
 		if t := h.topicGet(topic); t != nil {
-			t.markDeleted()
 			h.topicDel(topic)
+			if t.markDeletedOnce() {
+				t.exit <- &shutDown{reason: reason}
 
-			t.exit <- &shutDown{reason: reason}
-
-			statsInc("LiveTopics", -1)
+				statsInc("LiveTopics", -1)
+			}
 		}
 
 		// sess && msg could be nil if the topic is being killed by timer or due to rehashing.
@@ -582,10 +583,13 @@ func (h *Hub) stopTopicsForUser(uid types.Uid, reason int, alldone chan<- bool) 
 		topic := t.(*Topic)
 		if _, isMember := topic.perUser[uid]; (topic.cat != types.TopicCatGrp && isMember) ||
 			topic.owner == uid {
-			topic.markDeleted()
 			h.topics.Delete(name)
+			if !topic.markDeletedOnce() {
+				// Somebody else is stopping the topic at the same time (e.g. it is being deleted by its
+				// owner): the topic reads only one shutdown request and would never report this one as done.
+				return true
+			}
 
-			// This call is non-blocking unless some other routine tries to stop it at the same time.
 			topic.exit <- &shutDown{reason: reason, done: done}
 
 			// Just send to p2p topics here.
